@@ -143,6 +143,30 @@ def classify(case, work):
     return "C07"
 
 
+def annotation_programs(rng, n):
+    """programs whose verdict hinges on the well-formedness of ANNOTATION types (function signatures, cut annotations), alone and in pairs that are
+    written with the same tokens but different head modes, in both orders: each annotation must be checked on its own (C10 / C07)"""
+    structs = ["1 * B", "B * 1", "1 -* B", "B -* 1", "+{l : B}", "&{l : B, r : 1}", "B", "1", "1 * 1", "+{l : 1, r : R}", "R * 1", "lin /\\ rep B", "rep \\/ lin R",
+               "(1 * B) * 1", "1 * (B * 1)"]
+    anns = ["", "lin", "aff", "rep", "mul", "linear", "affine"]
+    out = []
+    for k in range(n):
+        s1 = rng.choice(structs)
+        s2 = s1 if rng.random() < 0.7 else rng.choice(structs)
+        a1, a2 = rng.choice(anns), rng.choice(anns)
+        t1, t2 = (a1 + " " + s1).strip(), (a2 + " " + s2).strip()
+        defs = "type B = lin 1\ntype R = rep 1\n"
+        shape = k % 3
+        if shape == 0:
+            body = "let f(x : %s) : %s = fwd self x\nlet g(y : %s) : %s = fwd self y\n" % (t1, t1, t2, t2)
+        elif shape == 1:
+            body = "let f(x : %s) : %s = fwd self x\nlet g(y : %s) : lin 1 = z : %s <- new fwd self y; drop z; close self\n" % (t1, t1, t2, t2)
+        else:
+            body = "let g(y : %s) : %s = fwd self y\nlet f(x : %s) : %s = fwd self x\nlet h(u : %s, w : %s) : lin 1 = drop u; drop w; close self\n" % (t2, t2, t1, t1, t1, t2)
+        out.append(("ann/%d" % k, defs + body))
+    return out
+
+
 def corpus_texts(tier, seed):
     import rt
     texts = [(p["name"], p["text"]) for p in rt.fixed_corpus()]
@@ -176,6 +200,7 @@ def stage(tier=None, seed=None):
                 texts += [(p["name"], p["text"]) for p in gen.generated_programs(tier, seed, work)][: 150 if tier == "quick" else 2000]
             except Exception:
                 pass
+            texts += annotation_programs(rng, 240 if tier == "quick" else 3000)
             muts = token_mutants(texts, rng, 500 if tier == "quick" else 8000)
             cases = cases_for(texts + muts)
             fails, errs, states = validate(cases, work)
